@@ -7,7 +7,7 @@ import shutil
 import subprocess
 import time
 
-from common import GARDEN, scratch_dir
+from common import GARDEN, limit_memory, scratch_dir
 
 
 class Lsp:
@@ -16,7 +16,7 @@ class Lsp:
         env = dict(os.environ)
         env["GARDEN_LOG"] = "error"
         self.proc = subprocess.Popen([GARDEN, "lsp"], cwd=self.dir, env=env, stdin=subprocess.PIPE,
-                                     stdout=subprocess.PIPE, stderr=subprocess.PIPE)
+                                     stdout=subprocess.PIPE, stderr=subprocess.PIPE, preexec_fn=limit_memory)
         self.buf = b""
         self.log = []          # ("send", msg) / ("recv", msg) in client order
 
